@@ -3103,6 +3103,185 @@ val v_piece : piece -> val0
 
 val dispatch_placeholder : z -> val0 -> val0 option
 
+type tmpl = { t_id : z; t_slot : bool; t_plus : bool; t_q : bool }
+
+type uistate = { u_focus : z; u_query : str; u_sel : z list }
+
+type args = { a_id : z; a_item : z; a_plus : z list option;
+              a_query : str option }
+
+val expansion : tmpl -> uistate -> args
+
+val zlist_eqb : z list -> z list -> bool
+
+val opt_eqb : ('a1 -> 'a1 -> bool) -> 'a1 option -> 'a1 option -> bool
+
+val args_eqb : args -> args -> bool
+
+type seen_cmd = { sc_args : args; sc_alive : bool; sc_out : str list }
+
+val alive_count : seen_cmd list -> nat
+
+val at_most_one : seen_cmd list -> bool
+
+val last_cmd : seen_cmd list -> seen_cmd option
+
+val caught_up : tmpl -> uistate -> seen_cmd list -> bool
+
+val no_stale_alive : tmpl -> uistate -> seen_cmd list -> bool
+
+val none_alive : seen_cmd list -> bool
+
+val explains : args list -> args list -> bool
+
+type request0 = { r_t : tmpl; r_items : z list; r_query : str }
+
+val build_list : tmpl -> uistate -> z list
+
+val build_req : tmpl -> uistate -> request0
+
+val expand_req : request0 -> args res
+
+type watcher =
+| WListen
+| WGrace
+| WKill
+| WDone0
+
+type phase0 =
+| PIdle
+| PTaken of request0
+| PRun of watcher * bool * bool
+| PStop
+
+type proc = { p_ver : nat; p_req : request0; p_alive : bool; p_out : str list }
+
+type exit_mode =
+| ExitNoWait
+| ExitWaitsRunning
+| ExitWaitsStopped
+
+type policy = { pol_poll : bool; pol_exit : exit_mode }
+
+type state = { s_ui : uistate; s_tmpl : tmpl; s_visible : bool;
+               s_version : nat; s_seen0 : (z * nat) option; s_pending : 
+               bool; s_box0 : request0 option; s_quit : bool; s_pver : 
+               nat; s_ph : phase0; s_disp : (nat * str list) option;
+               s_shown_ver : nat; s_shown : str list; s_running : bool;
+               s_evtquit : bool; s_ended : bool; s_tab : proc list;
+               s_gen : (z * nat) option; s_clean : bool }
+
+val init : tmpl -> uistate -> state
+
+val set_ui : state -> uistate -> nat -> state
+
+val set_ph : state -> phase0 -> state
+
+val set_tab_ph_disp :
+  state -> proc list -> phase0 -> (nat * str list) option -> state
+
+val cancel_ph : phase0 -> phase0
+
+val killnow_ph : phase0 -> phase0
+
+val refresh : bool -> state -> state
+
+val tmpl_eqb : tmpl -> tmpl -> bool
+
+val seen_eqb : (z * nat) option -> z -> nat -> bool
+
+type label0 =
+| LMove of z
+| LQuery of str
+| LSel of z list
+| LChangePreview of tmpl
+| LRefresh
+| LToggle
+| LRender
+| LDisplay
+| LTake
+| LSpawn
+| LReap
+| LTick
+| LTimer
+| LKill
+| LPoll
+| LOutput of str
+| LChildExit
+| LExit
+| LQuitPub
+| LProcEnd
+
+val hd_alive : proc list -> bool
+
+val upd_hd : proc list -> (proc -> proc) -> proc list
+
+val kill_p : proc -> proc
+
+val out_p : str -> proc -> proc
+
+val hd_out : proc list -> str list
+
+val is_stop : phase0 -> bool
+
+val is_run : phase0 -> bool
+
+val exit_ready : exit_mode -> phase0 -> bool
+
+val step1 : policy -> label0 -> state -> state option
+
+val step' : policy -> label0 -> state -> state
+
+val run2 : policy -> label0 list -> state -> state
+
+val run_strict : policy -> label0 list -> state -> state option
+
+val enabled : policy -> label0 -> state -> bool
+
+val internal_labels : label0 list
+
+val stable : policy -> state -> bool
+
+val box_empty0 : state -> bool
+
+val quiescent : policy -> state -> bool
+
+val as_tmpl : val0 -> tmpl
+
+val as_ui : val0 -> uistate
+
+val as_pol : val0 -> policy
+
+val vopt0 : ('a1 -> val0) -> 'a1 option -> val0
+
+val vints1 : z list -> val0
+
+val vargs : args -> val0
+
+val as_opt : (val0 -> 'a1) -> val0 -> 'a1 option
+
+val as_args : val0 -> args
+
+val as_seen : val0 -> seen_cmd
+
+val as_label : val0 -> label0
+
+val vproc : proc -> val0
+
+val observe : policy -> state -> val0
+
+val settle : label0 list
+
+val canonical : label0 list -> label0 list
+
+val d_canonical : policy -> tmpl -> uistate -> label0 list -> val0
+
+val d_spec : tmpl -> uistate -> seen_cmd list -> val0
+
+val d_strict : policy -> tmpl -> uistate -> label0 list -> val0
+
+val dispatch_preview : z -> val0 -> val0 option
+
 type crit =
 | ByScore
 | ByChunk
@@ -3301,7 +3480,7 @@ val crit_of : z -> crit
 
 val as_offsets : val0 -> (z * z) list
 
-val vints1 : z list -> val0
+val vints2 : z list -> val0
 
 val vres : ('a1 -> val0) -> 'a1 res -> val0
 
@@ -3595,9 +3774,9 @@ val lines_after : nat -> nat -> nat -> nat
 
 val stuck : nat -> nat -> nat -> nat -> bool
 
-val phase0 : nat -> nat -> nat -> nat -> nat -> nat
+val phase1 : nat -> nat -> nat -> nat -> nat -> nat
 
-val phase1 : nat -> nat -> nat -> nat -> nat -> nat -> nat
+val phase3 : nat -> nat -> nat -> nat -> nat -> nat -> nat
 
 val constrain_body : nat -> nat -> nat -> nat -> nat -> nat * nat
 
@@ -3670,10 +3849,10 @@ val is_inline : cfg1 -> bool
 
 val handle0 : cfg1 -> reqs -> term1 -> term1
 
-type upd = { u_query : str; u_matches : (nat * str) list; u_total : nat;
-             u_cy : nat; u_sel : nat list; u_reqs : reqs }
+type upd = { u_query0 : str; u_matches : (nat * str) list; u_total : 
+             nat; u_cy : nat; u_sel0 : nat list; u_reqs : reqs }
 
-val step1 : cfg1 -> term1 -> upd -> term1
+val step2 : cfg1 -> term1 -> upd -> term1
 
 val term_of_view : view -> term1
 
@@ -4014,7 +4193,7 @@ val as_kind : z -> kind0
 
 val d_model : val0 -> val0
 
-val d_spec : val0 -> val0
+val d_spec0 : val0 -> val0
 
 val d_fn : val0 -> val0
 
